@@ -261,6 +261,19 @@ func vfGenC01(rt *rapid.T) vfC01Case {
 	if cs.Cfg.Overwrite && rapid.IntRange(0, 2).Draw(rt, "preexisting") == 0 {
 		cs.Pre = rapid.IntRange(1, 4).Draw(rt, "prekind")
 	}
+	if rapid.IntRange(0, 9).Draw(rt, "resume_heavy") == 0 {
+		// a resumed transfer of a file large enough for the compression probe (>= 128 KiB still to send), default compression
+		cs.Cfg.Overwrite, cs.Pre = true, 2
+		cs.Cfg.Protocol = rapid.SampledFrom([]int{3, 4}).Draw(rt, "resume_proto")
+		cs.Cfg.Compress = 0
+		cs.Cfg.WinServer = false
+		f := &cs.Paths[0].Tree.Files[len(cs.Paths[0].Tree.Files)-1]
+		if !f.IsDir {
+			f.Size = rapid.SampledFrom([]int64{300000, 524288, 1000003}).Draw(rt, "resume_size")
+			f.Kind = rapid.SampledFrom([]int{vfKindNoise, vfKindText, vfKindHeadCompressible}).Draw(rt, "resume_kind")
+		}
+		cs.Cfg.SegC2S, cs.Cfg.SegS2C = vfSeg{}, vfSeg{}
+	}
 	// duplicate base names with -y are refused by design
 	if cs.Cfg.Overwrite {
 		seen := map[string]bool{}
